@@ -184,6 +184,15 @@ func runScenario(sc *h.Scenario, cov *h.Coverage, keepLog bool) (*h.Exec, *h.Vio
 	return x, nil
 }
 
+// runWithPrelude executes the scenarios named by sc.Prelude (regenerated from
+// property, tier, seed and index) and then sc, all in this process.
+func runWithPrelude(sc *h.Scenario, cov *h.Coverage, keepLog bool) (*h.Exec, *h.Violation) {
+	for _, idx := range sc.Prelude {
+		runScenario(scen.Generate(sc.Property, sc.Tier, sc.Seed, idx), nil, false)
+	}
+	return runScenario(sc, cov, keepLog)
+}
+
 func cmdWorker(args []string) int {
 	fs := flag.NewFlagSet("worker", flag.ExitOnError)
 	prop := fs.String("property", "", "")
@@ -696,9 +705,82 @@ func cmdRun(args []string) int {
 			rc.Env = append(os.Environ(), "GORACE=log_path="+filepath.Join(*out, "race-replay")+" halt_on_error=0 history_size=7 suppress_equal_stacks=0 suppress_equal_addresses=0 exitcode=0")
 			ob, _ := rc.CombinedOutput()
 			if !strings.Contains(string(ob), "fingerprint="+sc.Violation.Fingerprint) {
-				fmt.Fprintf(os.Stderr, "lssim: replay of %s did not reproduce %s:\n%s\n", dst, sc.Violation.Fingerprint, short(string(ob), 2000))
-				infra = true
-				continue
+				// The scenario alone does not fail in a fresh process. If the worker's
+				// earlier scenarios are needed (the library keeps state between
+				// requests at process level), replay it with them as a prelude.
+				hist, herr := h.LoadScenario(v.File)
+				reproduced := false
+				if herr == nil && !h.RaceBuild && *workers > 0 {
+					w := v.Index % *workers
+					for k := w; k < v.Index; k += *workers {
+						hist.Prelude = append(hist.Prelude, k)
+					}
+					want := hist.Violation.Fingerprint
+					fails := func(c *h.Scenario) bool {
+						nv := runFresh(c)
+						return nv != nil && nv.Fingerprint == want
+					}
+					alone := hist.Clone()
+					alone.Prelude = nil
+					if fails(alone) {
+						// the scenario as generated fails on its own; only the version
+						// minimised in this (long-lived) process did not: minimise again
+						// with one fresh process per candidate
+						reproduced = true
+						if min, mv := h.Minimise(alone, runFresh, time.Now().Add(60*time.Second)); mv != nil {
+							min.Violation = mv
+							alone = min
+						}
+						hist = alone
+					} else if len(hist.Prelude) > 0 && fails(hist) {
+						reproduced = true
+						// shrink the prelude (ddmin over whole scenarios)
+						deadline := time.Now().Add(90 * time.Second)
+						n := 2
+						for len(hist.Prelude) > 0 && time.Now().Before(deadline) {
+							chunk := (len(hist.Prelude) + n - 1) / n
+							reduced := false
+							for s0 := 0; s0 < len(hist.Prelude) && time.Now().Before(deadline); s0 += chunk {
+								e0 := s0 + chunk
+								if e0 > len(hist.Prelude) {
+									e0 = len(hist.Prelude)
+								}
+								c := hist.Clone()
+								c.Prelude = append(append([]int(nil), hist.Prelude[:s0]...), hist.Prelude[e0:]...)
+								if fails(c) {
+									hist = c
+									reduced = true
+									break
+								}
+							}
+							if !reduced {
+								if chunk <= 1 {
+									break
+								}
+								n *= 2
+								if n > len(hist.Prelude) {
+									n = len(hist.Prelude)
+								}
+							} else if n > 2 {
+								n--
+							}
+						}
+						if len(hist.Prelude) == 0 {
+							reproduced = false // inconsistent with the run alone above
+						}
+					}
+				}
+				if !reproduced {
+					fmt.Fprintf(os.Stderr, "lssim: replay of %s did not reproduce %s:\n%s\n", dst, sc.Violation.Fingerprint, short(string(ob), 2000))
+					os.Rename(dst, dst+".unreproduced")
+					infra = true
+					continue
+				}
+				if len(hist.Prelude) > 0 {
+					hist.Violation.Detail += fmt.Sprintf("\n(history-dependent: fails only after %d earlier scenario(s) ran in the same process, i.e. the library keeps state between requests; the replay file lists them as prelude)", len(hist.Prelude))
+				}
+				sc = hist
+				sc.Save(dst)
 			}
 		}
 		fmt.Printf("VIOLATION property=%s replay=%s\n", *prop, dst)
@@ -886,9 +968,12 @@ func cmdReplay(args []string) int {
 		fmt.Fprintln(os.Stderr, "lssim:", err)
 		return 2
 	}
-	x, v := runScenario(sc, nil, *verbose)
+	x, v := runWithPrelude(sc, nil, *verbose)
 	if *verbose {
 		fmt.Print(x.LogText.String())
+	}
+	if len(sc.Prelude) > 0 {
+		fmt.Printf("lssim: %d earlier scenario(s) of the same batch were executed first in this process (prelude)\n", len(sc.Prelude))
 	}
 	fmt.Printf("lssim: replay %s: log=%s evaluations=%d\n", fs.Arg(0), x.LogHash(), x.Cov.Evaluations)
 	if v == nil {
